@@ -114,13 +114,13 @@ ADDED = {
  "C16": " Added: duplicate and negation-twin key lists, negated-key mutations, crafted chain-point-at-infinity inputs, count and signature extended together.",
  "C17": " Added: the empty aggregate with every boundary scalar and wrong length; schedules with refused steps and with empty parts (NULL and non-NULL empty arrays); every aggregate length.",
  "C11": " Added: count fields around their limit with consistent lengths, forgeries through degenerate ring members, unblinded tags (blinding key 0), a HAVE_BUILTIN_POPCOUNT build.",
- "C13": " Added: every present/absent combination of the optional nonce_gen arguments, half-wiped keypairs, caller buffers at odd addresses.",
- "C04": " Added: key families differing in one byte of x at each position, every comb layout (86 / 22 / 2 KiB) across the three quick builds.",
+ "C13": " Added: the no-asm build (the wipe primitive is configuration-dependent) in the quick tier; every present/absent combination of the optional nonce_gen arguments, half-wiped keypairs, caller buffers at odd addresses.",
+ "C04": " Added: Taproot checks against x and x+p for outputs with x < 2^32+977 (internal key built from the chosen output); key families differing in one byte of x at each position, every comb layout (86 / 22 / 2 KiB) across the three quick builds.",
  "C18": " Added: arbitrary non-zero ints for the 'party' flag; production build in the quick tier.",
  "C20": " Added: helgrind runs of the production build (inline asm included), production build in the quick tier, a shim death in the static-context workload is a violation; refused calls and absent optional arguments in the thread probes; the probe suite replayed on a VERIFY build under memcheck.",
 }
 GLOBAL_ADDED = (" Every check also repeats a sample of its calls on a byte copy of secp256k1_context_static (operations the headers do not restrict) and on a "
-                "second context (a malloc or preallocated CLONE of a randomized context with a replaced SHA-256 compression function), and repeats byte-array-only calls with every argument / output block placed at an odd address, demanding identical replies; quick tiers run secondary builds "
+                "second context (a malloc or preallocated CLONE of a randomized context with a replaced SHA-256 compression function), and repeats byte-array-only calls with every argument / output block placed at an odd address, demanding identical replies; the shim reports every input block a call changed and only the documented in/out arguments may change (input-immutability monitor); quick tiers run secondary builds "
                 "(production / 32-bit limbs / no asm, three comb-table layouts) on a third of each workload.")
 NOTE_FIX = {
  "C10": "Trusted: ref/rangeproof.py, ref/borromean.py (incl. the small-x prover with a chosen generator).",
